@@ -585,3 +585,45 @@ func marshalEverywhere(c *core.Ctx, k *core.Case, label string, v reflect.Value,
 	}
 	return n
 }
+
+// appendProbe checks "every slice of a decoded value owns its memory up to its
+// capacity": it appends up to eight octets to every byte slice reachable from root
+// that has spare capacity (the result is discarded, which is what a caller's
+// x = append(x, ...) does to the memory behind x) and reports whether anything
+// reachable from root changed. A decoder that cuts its results out of one array
+// with two-index slices fails: appending to one element rewrites its neighbour.
+func appendProbe(root reflect.Value) (changed bool, spare int) {
+	before := fingerprint(root)
+	walkBytes(root, func(v reflect.Value) {
+		if n := v.Cap() - v.Len(); n > 0 {
+			spare++
+			if n > 8 {
+				n = 8
+			}
+			_ = append(v.Bytes(), []byte{0xee, 0xee, 0xee, 0xee, 0xee, 0xee, 0xee, 0xee}[:n]...)
+		}
+	})
+	return fingerprint(root) != before, spare
+}
+
+// capacityIndependent checks "what a parser makes of n octets depends on those n
+// octets only": parse gets the input once in a slice of exactly its length and
+// once as the prefix of a larger array whose spare capacity holds plausible
+// octets (the input itself once more, then zeros); the two digests must agree.
+func capacityIndependent(in []byte, parse func([]byte) uint64) (ok bool) {
+	exact := make([]byte, len(in))
+	copy(exact, in)
+	big := make([]byte, 2*len(in)+16)
+	copy(big, in)
+	copy(big[len(in):], in)
+	return parse(exact) == parse(big[:len(in):len(big)])
+}
+
+// digestOf folds an error flag and a fingerprint into one value.
+func digestOf(err error, v interface{}) uint64 {
+	d := fingerprint(reflect.ValueOf(v))
+	if err != nil {
+		return 0x0e550e55 // results after an error are not judged
+	}
+	return d
+}
